@@ -169,6 +169,13 @@ def top_keys(K):
 def valid_mutation(K, rng, slot=0):
     sl = {"slot": slot} if slot else {}
     r = rng.random()
+    if K["vars"] and rng.random() < 0.12:
+        # an offer the library refuses, in between (a child whose UID does not line up, an ID that is taken, the twin of a
+        # child that is the top-level variant of another tree)
+        o = {"op": "ti_var_offer", "into": pick(rng, K["vars"])["n"], "kind": pick(rng, ["misaligned", "taken-id", "foreign-twin", "foreign-twin"]),
+             "n": rng.randint(0, 9)}
+        o.update(sl)
+        return o
     if r < 0.12:
         # an optional part of the description is taken back as a whole
         o = {"op": "ti_clear", "what": pick(rng, ["stage2", "media", "checksums"]), "inplace": rng.random() < 0.5}
